@@ -53,14 +53,19 @@ KIND_NAMES = {'oF': 'plain', 'oR': 'rotating', 'oFR': 'both', 'o(F)': 'nested', 
 CHUNK = 16384
 
 
+TMP_BASE = 1000000    # ids of the records logged through a second, short-lived Logger object (& items)
+
+
 def text_of(i, size):
+    if size <= 0:      # size 0: the EMPTY text; size -n: n blanks (whitespace only); such a record carries no id
+        return b' ' * (-size)
     s = ('%d:' % i).encode()
     if len(s) < size:
         s += bytes([ord('a') + i % 26]) * (size - len(s))
     return s
 
 
-OPS = '+^~!'   # reconfiguration items: append handler, sendToFile, remove handler, clearSinks
+OPS = '+^~!&'   # reconfiguration items: append handler, sendToFile, remove handler, clearSinks, a second short-lived Logger
 
 
 def events(msgs):
@@ -184,15 +189,51 @@ def forgive_faults(files, reference, zids):
 SINK_LETTERS = 'FRrDBqQ'
 
 
-def sink_letters(sc):
+def parse_sinks(txt):
+    """(letter, alias) of the file sinks in a string of tree letters; alias k (from <letter>@<k>): the sink logs to
+    the file of sink k"""
+    out, i = [], 0
+    while i < len(txt):
+        c = txt[i]; i += 1
+        if c in SINK_LETTERS:
+            a = None
+            if i < len(txt) and txt[i] == '@':
+                j = i + 1
+                while j < len(txt) and txt[j].isdigit():
+                    j += 1
+                a = int(txt[i + 1:j] or 0); i = j
+            out.append((c, a))
+    return out
+
+
+def sink_info(sc):
     """the file sinks ever created, in creation order: those of the tree (depth-first), then those of the handlers
-    appended by reconfiguration items"""
-    t = MODEL_TREE.get(sc['tree'], sc['tree'])
-    out = [c for c in t if c in SINK_LETTERS]
+    appended by reconfiguration items and of the short-lived second loggers; (letter, alias)"""
+    out = parse_sinks(MODEL_TREE.get(sc['tree'], sc['tree']))
     for e in events(sc.get('msgs', '-')):
         if e[0] in '+^':
-            out += [c for c in e[1].partition(':')[2] if c in SINK_LETTERS]
+            out += parse_sinks(e[1].partition(':')[2])
+        elif e[0] == '&':
+            out.append(('F', int(e[1].partition(':')[0] or 0)))
     return out
+
+
+def sink_letters(sc):
+    return [c for c, _ in sink_info(sc)]
+
+
+def has_sharing(sc):
+    return any(a is not None for _, a in sink_info(sc))
+
+
+def well_formed(sc):
+    """every alias points to an EARLIER sink with a file of its own (a candidate of the shrinker may have lost it)"""
+    info = sink_info(sc)
+    return all(a is None or (a < k and info[a][1] is None and info[a][0] in 'FRD') for k, (_, a) in enumerate(info))
+
+
+def tmp_records(sc):
+    return sum(int(e[1].partition(':')[2] or 0) for e in events(sc.get('msgs', '-')) if e[0] == '&')
 
 
 def nsinks(tree):
@@ -212,16 +253,32 @@ def gone_of(layout):
     return {k for k, f in enumerate(layout.split(';')) if f == 'G'}
 
 
-def read_sink(d, k, sc):
-    """record ids found in the file(s) of sink k, and defects of the bytes (partial / foreign lines)"""
+# a line of the one-line front-end (PrettyFormatter: time, type letter, a thread field "T<n> " / blanks once a second
+# thread has logged, message) whose message is empty or blank; the number of blanks cannot be told from the thread field
+FRONT_BLANK = re.compile(rb'^\d{2}\.\d{2}\.\d{4} \d{2}:\d{2}:\d{2} [ IWEF] (?:T\d+ )? *$')
+
+
+def read_sink(d, k, sc, hint=()):
+    """record ids found in the file(s) named after sink k, in file order, and defects of the bytes (partial / foreign
+    lines).  A record with an empty or blank text carries no id, and two such records with the same text cannot be
+    told apart: the line is attributed to a message of the history that has exactly this text - first to one the
+    file is supposed to hold (hint: the ids demanded of this file) and does not hold yet, later ids first after
+    earlier ones; else to any other such message (so a surplus or a missing line still shows)."""
     sizes = [s for _, s in expand(sc['msgs'])] + [sc['fatalsize']]
+    ntmp = tmp_records(sc)
+    blank = {i: text_of(i, sz) for i, sz in enumerate(sizes) if sz <= 0}
+    used = {}
+    want = {}
+    for i in hint:
+        want[i] = want.get(i, 0) + 1
     rot = []
     for p in glob.glob(os.path.join(d, 's%d.*.log' % k)):
         m = re.match(r's\d+\.(\d{4}-\d{2}-\d{2})\.(\d+)\.log$', os.path.basename(p))
         if m:
             rot.append((m.group(1), int(m.group(2)), p))
     paths = [p for _, _, p in sorted(rot) if not os.path.isdir(p)] + [os.path.join(d, 's%d.log' % k)]
-    ids, defects = [], []
+    front = sc['tree'].startswith('ONE')
+    ids, defects, last = [], [], -1
     for p in paths:
         try:
             data = open(p, 'rb').read()
@@ -232,32 +289,70 @@ def read_sink(d, k, sc):
         if lines[-1] != b'':
             defects.append('partial record at the end of ' + os.path.basename(p))
         for ln in lines[:-1]:
+            if (FRONT_BLANK.match(ln) if front else ln.strip(b' ') == b''):
+                cands = [i for i in blank if front or blank[i] == ln]
+                if not cands:
+                    defects.append('foreign line %r' % ln[:60]); continue
+                wanted = [i for i in cands if used.get(i, 0) < want.get(i, 0)]
+                pool = [i for i in wanted if i > last] or wanted or [i for i in cands if i > last] or cands
+                i = min(pool, key=lambda j: (used.get(j, 0), j))
+                used[i] = used.get(i, 0) + 1
+                ids.append(i); last = i
+                continue
             m = re.search(rb'(\d+):[a-z]*$', ln)
-            if not m or int(m.group(1)) >= len(sizes):
+            i = int(m.group(1)) if m else -1
+            if TMP_BASE <= i < TMP_BASE + ntmp:
+                exp = text_of(i, 10)
+            elif 0 <= i < len(sizes) and sizes[i] > 0:
+                exp = text_of(i, sizes[i])
+            else:
                 defects.append('foreign line %r' % ln[:60]); continue
-            i = int(m.group(1))
-            exp = text_of(i, sizes[i])
-            front = sc['tree'].startswith('ONE')
             if (front and not ln.endswith(b' ' + exp)) or (not front and ln != exp):
                 defects.append('record %d corrupted (%d bytes, expected %d)' % (i, len(ln), len(exp)))
             ids.append(i)
+            if i < TMP_BASE:
+                last = i
     return ids, defects
 
 
-def run_impl(impl, sc, gone=()):
+def hint_of(layout):
+    """per sink number, the ids a layout string (model / expected output) lists for its file"""
+    out = {}
+    if not layout or layout == '?':
+        return out
+    for k, f in enumerate(layout.split(';')):
+        if f not in ('G', 'X', '?') and not f.startswith('='):
+            try:
+                out[k] = unranges(f)
+            except ValueError:
+                pass
+    return out
+
+
+def run_impl(impl, sc, gone=(), hint=None):
     d = tempfile.mkdtemp(prefix='c11_')
     try:
         p = subprocess.run([impl, d, sc['tree'], sc['end'], sc['thread'], sc['msgs'], str(sc['fatalsize'])],
                            stdout=subprocess.DEVNULL, stderr=subprocess.DEVNULL, timeout=300)
-        files, defects = [], []
-        for k, c in enumerate(sink_letters(sc)):
-            if k in gone:      # removed from the logger before the end: not one of its file sinks any more
-                files.append('G'); continue
+        files, raw, defects = [], [], []
+        info = sink_info(sc)
+        shared = {a for _, a in info if a is not None}
+        for k, (c, a) in enumerate(info):
+            if a is not None:  # logs to the file of sink a: reported there
+                files.append('=%d' % a); raw.append('=%d' % a); continue
+            if k in gone:      # no sink of the final configuration logs to this file
+                files.append('G'); raw.append('G'); continue
             if c == 'B':
-                files.append('X'); continue
-            ids, df = read_sink(d, k, sc)
-            files.append(ranges(ids)); defects += ['s%d: %s' % (k, x) for x in df]
-        return {'rc': p.returncode, 'files': ';'.join(files), 'defects': defects[:5]}
+                files.append('X'); raw.append('X'); continue
+            ids, df = read_sink(d, k, sc, hint_of(hint).get(k, ()))
+            # a file several sinks wrote: the order in which their streams interleave is not modelled (sorted for the
+            # comparison with the model; the oracle gets the ids in file order)
+            files.append(ranges(sorted(ids) if k in shared else ids)); raw.append(ranges(ids))
+            defects += ['s%d: %s' % (k, x) for x in df]
+        r = {'rc': p.returncode, 'files': ';'.join(files), 'defects': defects[:5]}
+        if shared:
+            r['files_oracle'] = ';'.join(raw)
+        return r
     except subprocess.TimeoutExpired:
         return {'rc': 'timeout', 'files': '', 'defects': ['timeout']}
     finally:
@@ -331,6 +426,40 @@ def scenarios(chk):
         if tree not in MODEL_TREE:
             addraw(tree, 'kill', 'main', 'm10*2,f,%s,m10*3' % recfg, 13, 'reconfigure-kill')
             addraw(tree, 'kill', 'main', 'm10*2,f,%s,m10*3,f,m10' % recfg, 13, 'reconfigure-kill')
+    # EMPTY and whitespace-only texts (size 0 / -n): qFatal("%s", "") is a fatal message like any other, and an empty
+    # or blank message before it is a record (a line of its own): every configuration x fatal text {empty, 2 blanks}
+    for tree in kinds:
+        for fs in (0, -2):
+            for th in ('main', 'sec'):
+                add(tree, 'fatal', th, [('m', 10), ('m', 0), ('m', -3), ('m', 10)], fs, 'blank-text')
+        add(tree, 'fatal', 'main', [], 0, 'blank-text')
+        add(tree, 'fatal', 'main', [('m', 0)] * 2 + [('m', -1)] * 2, 13, 'blank-text')
+        if tree in heavy_kinds:
+            add(tree, 'fatal', 'sec', [('m', 10)] * 300 + [('m', 0)], 0, 'blank-text')
+        if tree not in MODEL_TREE:
+            add(tree, 'kill', 'main', [('m', 10), ('m', 0), ('m', -3), ('m', 10)], 0, 'blank-text-kill')
+    for tree in ('ONEA1', 'ONEA2', 'FLU1', 'FLUP'):
+        add(tree, 'fatal', 'main', [('m', 10), ('m', 0), ('m', -3)], 0, 'blank-text')
+    add('SoF', 'fatal', 'busy', [('m', 10), ('m', 0), ('m', 10)], 0, 'blank-text')
+    # SEVERAL FILE SINKS ON ONE FILE (<letter>@<k> = a new sink on the file of sink k): the sink is replaced at run
+    # time by a new one for the same file - the new one appended, then the old one removed (destroyed) -, both stay,
+    # a nested pipeline gets a sink on the main file, a second short-lived Logger object logs to the same file and
+    # goes out of scope (&k:n); then messages and the fatal one.  Controls: old sink destroyed first; SIGKILL.
+    for tree, recfg in (('oF', '+:F@0,~:1'), ('oR', '+:R@0,~:1'), ('oF', '+:R@0,~:1'), ('oR', '+:F@0,~:1'),
+                        ('oF', '+:F@0,m10,~:1'), ('oFR', '+:F@1,m10*2,~:2'), ('oF', '+:F@0'), ('oF', '+:(F@0)'),
+                        ('oF(l)', '+2:F@0,m10,~:1'), ('oF(oR(F))', '+2.2:F@1,~2:1'), ('oD', '+:F@0,~:1'),
+                        ('FLU1', '^:F@0,~:1'), ('FLU1', '^:R@0,m10,~:1'), ('FLUP', '^2:F@0'), ('FLU', '^:F@0,~:1,^:R@1,~:1'),
+                        ('oF', '&0:2'), ('oF', '&0:0'), ('oR', '&0:1,+:F@0,~:1'), ('FLU1', '&0:3'), ('FLUN', '&1:2,&0:1'),
+                        ('oF', '~:1,+:F@0'), ('FLU1', '!:,^:F@0'), ('oFF@0', 'f'), ('oFR@0(F@0)', '~:2')):
+        for th in ('main', 'sec'):
+            addraw(tree, 'fatal', th, 'm10*2,%s,m10*3' % recfg, 13, 'shared-file')
+        addraw(tree, 'fatal', 'main', 'm10*2,f,%s,m10,f,m10' % recfg, 13, 'shared-file')
+        addraw(tree, 'fatal', 'main', '%s,m0' % recfg, 0, 'shared-file')
+        addraw(tree, 'fatal', 'main', 'm20480*2,%s,m20480*2,m10' % recfg, 20480, 'shared-file')
+        if thorough:
+            addraw(tree, 'fatal', 'sec', 'm1000*40,%s,m1000*40' % recfg, 13, 'shared-file')
+        if tree not in MODEL_TREE:
+            addraw(tree, 'kill', 'main', 'm10*2,%s,m10*3' % recfg, 13, 'shared-file-kill')
     # random trees and histories aimed at the case splits: buffer overflow (pre-flush), blocks above the
     # chunk size (bypass), exactly the chunk size, all message types, deeper nesting, several sinks
     def rtree(depth):
@@ -347,9 +476,9 @@ def scenarios(chk):
         k = rng.choice([0, 1, 2, 5, 40, 300])
         ml = []
         for _ in range(k):
-            size = rng.choice([8, 10, 100, 1000, 5000, CHUNK - 2, CHUNK - 1, CHUNK, CHUNK + 1, 20480, 40000])
+            size = rng.choice([8, 10, 100, 1000, 5000, CHUNK - 2, CHUNK - 1, CHUNK, CHUNK + 1, 20480, 40000, 0, -1, -5])
             ml.append((rng.choice('dwci'), size))
-        fs = rng.choice([8, 13, 100, CHUNK - 1, CHUNK, 20480])
+        fs = rng.choice([8, 13, 100, CHUNK - 1, CHUNK, 20480, 0, 0, -3])
         origin = 'random'
         if n % 3 == 1:
             # explicit flushes and reconfigurations at random places of the history
@@ -388,41 +517,63 @@ def random_reconfiguration(rng, tree, ml):
     total = len([c for c in tree if c in SINK_LETTERS])
     has_null = 'N' in tree
     ev = list(ml)
+    # sinks with a file of their own that a later sink may share (letter@number: a new sink on the SAME file)
+    own = [(k, c) for k, (c, a) in enumerate(parse_sinks(tree)) if a is None and c in 'FRD']
+    state = {'total': total}
+
+    def newsink(c):
+        k = state['total']; state['total'] += 1
+        if own and rng.random() < 0.4:
+            c = c if c in 'FR' else 'F'
+            return c, '%s@%d' % (c, rng.choice(own)[0])
+        if c in 'FRD':
+            own.append((k, c))
+        return c, c
     # positions are drawn from the end so that the history after the last reconfiguration is often short
     items = []
     for _ in range(rng.randint(1, 3)):
-        if total >= 7:
+        if state['total'] >= 7:
             break
         path, pl = rng.choice(list(pipelines_of(shape)))
         ps = '.'.join(map(str, path))
-        kind = rng.choice(['append', 'append', 'replace', 'remove', 'nest', 'clear', 'sendto'])
+        kind = rng.choice(['append', 'append', 'replace', 'remove', 'nest', 'clear', 'sendto', 'replace-after', 'second-logger'])
         sinks_here = [i for i, h in enumerate(pl) if isinstance(h, str) and h in SINK_LETTERS]
         if kind == 'replace' and sinks_here:
             i = rng.choice(sinks_here)
-            c = rng.choice('FR')
-            del pl[i]; pl.append(c); total += 1
-            items.append([('~', '%s:%d' % (ps, i)), ('+', '%s:%s' % (ps, c))])
+            c, txt = newsink(rng.choice('FR'))
+            del pl[i]; pl.append(c)
+            items.append([('~', '%s:%d' % (ps, i)), ('+', '%s:%s' % (ps, txt))])
+        elif kind == 'replace-after' and sinks_here:
+            # the new sink first, then the old one goes (with a message in between half of the time)
+            i = rng.choice(sinks_here)
+            c, txt = newsink(rng.choice('FR'))
+            pl.append(c); del pl[i]
+            items.append([('+', '%s:%s' % (ps, txt))] + ([(rng.choice('dwci'), 10)] if rng.random() < 0.5 else []) + [('~', '%s:%d' % (ps, i))])
+        elif kind == 'second-logger' and own:
+            state['total'] += 1
+            items.append([('&', '%d:%d' % (rng.choice(own)[0], rng.choice([0, 1, 3])))])
         elif kind == 'remove' and pl:
             i = rng.randrange(len(pl))
             if pl[i] != 'N':
                 del pl[i]
             items.append([('~', '%s:%d' % (ps, i))])
         elif kind == 'nest':
-            c = rng.choice(['(F)', '(gF)', '(oR)'])
-            pl.append(parse_shape(c)[0]); total += 1
-            items.append([('+', '%s:%s' % (ps, c))])
+            pre, letter = rng.choice([('', 'F'), ('g', 'F'), ('o', 'R')])
+            c, txt = newsink(letter)
+            pl.append(parse_shape('(' + pre + c + ')')[0])
+            items.append([('+', '%s:(%s%s)' % (ps, pre, txt))])
         elif kind == 'clear' and not has_null:
-            c = rng.choice('FR')
-            pl[:] = [h for h in pl if not (isinstance(h, str) and h in SINK_LETTERS)] + [c]; total += 1
-            items.append([('!', '%s:' % ps), ('^', '%s:%s' % (ps, c))])
+            c, txt = newsink(rng.choice('FR'))
+            pl[:] = [h for h in pl if not (isinstance(h, str) and h in SINK_LETTERS)] + [c]
+            items.append([('!', '%s:' % ps), ('^', '%s:%s' % (ps, txt))])
         elif kind == 'sendto':
-            c = rng.choice('FR')
-            pl.append(c); total += 1
-            items.append([('^', '%s:%s' % (ps, c))])
+            c, txt = newsink(rng.choice('FR'))
+            pl.append(c)
+            items.append([('^', '%s:%s' % (ps, txt))])
         else:
-            c = rng.choice('FFRD')
-            pl.append(c); total += 1
-            items.append([('+', '%s:%s' % (ps, c))])
+            c, txt = newsink(rng.choice('FFRD'))
+            pl.append(c)
+            items.append([('+', '%s:%s' % (ps, txt))])
     # place the groups in order at increasing positions; a flush in front of the first group half of the time
     pos = sorted(rng.randint(0, len(ev)) for _ in items)
     if items and rng.random() < 0.6:
@@ -444,7 +595,7 @@ def boundary_hits(sc):
     """which case splits of write/qfile_policy the scenario exercises (on a plain sink)"""
     buf, pre, bypass, exact = 0, 0, 0, 0
     for _, s in expand(sc['msgs']) + ([('f', sc['fatalsize'])] if sc['end'] == 'fatal' else []):
-        ln = s + 1
+        ln = abs(s) + 1
         if buf + ln > CHUNK:
             pre += 1 if buf else 0
             buf = 0
@@ -497,19 +648,20 @@ def run():
     if rcm != 0 or len(out_m) != len(scs):
         chk.broke('the extracted model crashed', {'kind': 'model-crash', 'stderr': err_m[-500:]})
         out_m = out_m + ['?'] * (len(scs) - len(out_m))
-    with concurrent.futures.ThreadPoolExecutor(max_workers=min(8, vlib.NCPU)) as ex:
-        res = list(ex.map(lambda i: run_impl(impl, scs[i], gone_of(out_m[i])), range(len(scs))))
     # oracle on the implementation's files (fatal scenarios only: the property speaks of a fatal message)
     fat = [i for i, s in enumerate(scs) if s['end'] == 'fatal']
     _, exp_all, _ = vlib.run_lines(model, [model_line(scs[i]) for i in fat], ['expected'])
     exp_of = dict(zip(fat, exp_all))
+    # (what the property demands / the model predicts is only a HINT for telling records with the same blank text apart)
+    with concurrent.futures.ThreadPoolExecutor(max_workers=min(8, vlib.NCPU)) as ex:
+        res = list(ex.map(lambda i: run_impl(impl, scs[i], gone_of(out_m[i]), exp_of.get(i) or out_m[i]), range(len(scs))))
     for i in fat:
         res[i]['files_raw'] = res[i]['files']
         # the model now predicts the fate of a record written during a device fault (lost iff it bypasses the buffer);
         # the one-line front-end adds a time stamp of unknown length, so only there the record is still forgiven
         if scs[i]['tree'].startswith('ONE'):
             res[i]['files'] = forgive_faults(res[i]['files'], exp_of.get(i), fault_ids(scs[i]))
-    _, verdicts, _ = vlib.run_lines(model, ['%s | %s' % (model_line(scs[i]), res[i]['files']) for i in fat], ['oracle'])
+    _, verdicts, _ = vlib.run_lines(model, ['%s | %s' % (model_line(scs[i]), res[i].get('files_oracle') or res[i]['files']) for i in fat], ['oracle'])
     verdict = dict(zip(fat, verdicts))
     falsified, dis, wrong_death = [], [], []
     for i, (s, r, m) in enumerate(zip(scs, res, out_m)):
@@ -525,7 +677,7 @@ def run():
 
     def run_canon(sc, exe=None):
         _, ex, _ = vlib.run_lines(model, [model_line(sc)], ['expected'])
-        r = run_impl(exe or impl, sc, gone_of(ex[0] if ex else None))
+        r = run_impl(exe or impl, sc, gone_of(ex[0] if ex else None), ex[0] if ex else None)
         if sc['tree'].startswith('ONE'):
             r['files'] = forgive_faults(r['files'], ex[0] if ex else None, fault_ids(sc))
         return r, (ex[0] if ex else '?')
@@ -533,8 +685,10 @@ def run():
     def fails(sc, exe=None):
         if sc['thread'] == 'busy' and sc['msgs'] in ('-', ''):
             return False
+        if not well_formed(sc):
+            return False
         r, _ = run_canon(sc, exe)
-        _, v, _ = vlib.run_lines(model, ['%s | %s' % (model_line(sc), r['files'])], ['oracle'])
+        _, v, _ = vlib.run_lines(model, ['%s | %s' % (model_line(sc), r.get('files_oracle') or r['files'])], ['oracle'])
         return (sc['end'] == 'fatal' and (not v or v[0] != '1' or r['rc'] != -6)) or bool(r['defects'])
 
     def report_falsified(falsified_scs, exe, build, model_mode):
@@ -595,12 +749,12 @@ def run():
         chk.broke('the extracted model (NO_THREAD configuration) crashed', {'kind': 'model-crash', 'stderr': err_n[-500:]})
         out_n = out_n + ['?'] * (len(sub_n) - len(out_n))
     with concurrent.futures.ThreadPoolExecutor(max_workers=min(8, vlib.NCPU)) as ex:
-        res_n = list(ex.map(lambda a: run_impl(nth, scs[a[0]], gone_of(a[1])), zip(sub_n, out_n)))
+        res_n = list(ex.map(lambda a: run_impl(nth, scs[a[0]], gone_of(a[1]), exp_of.get(a[0]) or a[1]), zip(sub_n, out_n)))
     fat_n = [(i, r) for i, r in zip(sub_n, res_n) if scs[i]['end'] == 'fatal']
     for i, r in fat_n:
         if scs[i]['tree'].startswith('ONE'):
             r['files'] = forgive_faults(r['files'], exp_of.get(i), fault_ids(scs[i]))
-    _, verd_n, _ = vlib.run_lines(model, ['%s | %s' % (model_line(scs[i]), r['files']) for i, r in fat_n], ['oracle'])
+    _, verd_n, _ = vlib.run_lines(model, ['%s | %s' % (model_line(scs[i]), r.get('files_oracle') or r['files']) for i, r in fat_n], ['oracle'])
     verdict_n = {i: v for (i, _), v in zip(fat_n, verd_n)}
     fals_n, dis_n, death_n = [], [], []
     for i, r, m in zip(sub_n, res_n, out_n):
@@ -633,7 +787,7 @@ def run():
         hdr = vlib.build_harness('fatal', 'hdr')
         sub = [i for i, s in enumerate(scs) if s['origin'] != 'random' and len(expand(s['msgs'])) <= 3]
         with concurrent.futures.ThreadPoolExecutor(max_workers=min(8, vlib.NCPU)) as ex:
-            res_h = list(ex.map(lambda i: run_impl(hdr, scs[i], gone_of(out_m[i])), sub))
+            res_h = list(ex.map(lambda i: run_impl(hdr, scs[i], gone_of(out_m[i]), exp_of.get(i) or out_m[i]), sub))
         bad_h = [i for i, r in zip(sub, res_h) if r['files'] != res[i]['files'] or r['defects']]
         chk.cov['header_only_scenarios'] = len(sub)
         chk.cov['header_only_differences'] = len(bad_h)
@@ -675,7 +829,7 @@ def run():
                           'scenarios_with_block_above_chunk': sum(1 for h in hits if h[1]),
                           'scenarios_with_block_exactly_chunk': sum(1 for h in hits if h[2]),
                           'scenarios_everything_fits_buffer': sum(1 for h in hits if not h[0] and not h[1])},
-        'bytes_logged_total': sum(sum(sz + 1 for _, sz in expand(s['msgs'])) * nsinks(s['tree']) for s in scs)})
+        'bytes_logged_total': sum(sum(abs(sz) + 1 for _, sz in expand(s['msgs'])) * nsinks(s['tree']) for s in scs)})
     heavy = max(range(len(scs)), key=lambda i: (scs[i]['end'] == 'kill', len(expand(scs[i]['msgs']))))
     pick = [0, len(scs) // 3, heavy, len(scs) - 1]
     chk.samples = [dict({k: scs[i][k] for k in ('tree', 'end', 'thread', 'msgs', 'fatalsize')}, files=res[i]['files'], model=out_m[i],
@@ -695,10 +849,10 @@ def replay(path):
     sc = {'tree': r['tree'], 'end': r.get('end', 'fatal'), 'thread': r.get('thread', 'main'), 'msgs': r.get('msgs', '-'),
           'fatalsize': int(r.get('fatalsize', 13))}
     demands = vlib.run_lines(model, [model_line(dict(sc, end='fatal'))], ['expected'])[1]
-    res = run_impl(impl, sc, gone_of(demands[0] if demands else None))
+    res = run_impl(impl, sc, gone_of(demands[0] if demands else None), demands[0] if demands else None)
     print('scenario        ', json.dumps(sc), '(library built with -DQTLOGGER_NO_THREAD)' if build == 'nth' else '')
     print('implementation  ', res)
     print('model           ', vlib.run_lines(model, [model_line(sc)], ['model-nth' if build == 'nth' else 'model'])[1])
     print('property demands', demands)
-    print('oracle on impl  ', vlib.run_lines(model, ['%s | %s' % (model_line(sc), res['files'])], ['oracle'])[1])
+    print('oracle on impl  ', vlib.run_lines(model, ['%s | %s' % (model_line(sc), res.get('files_oracle') or res['files'])], ['oracle'])[1])
     return 0
